@@ -524,6 +524,10 @@ pub struct VSpec {
     pub claim: Claim,
     pub behave: VBehave,
     pub reg: VReg,
+    /// use the harness's SECOND validator function (own behaviour table, log entries prefixed "#2:"): lets a history register
+    /// two distinguishable validators for one key
+    #[serde(default)]
+    pub second: bool,
 }
 
 #[derive(Clone, Debug, Default, Serialize, Deserialize, PartialEq)]
@@ -627,6 +631,33 @@ fn harness_validator(key: &str, value: &Value) -> Result<(), PasetoClaimError> {
 }
 static HV: fn(&str, &Value) -> Result<(), PasetoClaimError> = harness_validator;
 
+thread_local! {
+    static VTABLE_B: RefCell<Vec<(String, VBehave)>> = const { RefCell::new(Vec::new()) };
+}
+fn harness_validator_b(key: &str, value: &Value) -> Result<(), PasetoClaimError> {
+    VLOG.with(|l| l.borrow_mut().push((format!("#2:{}", key), value.clone())));
+    let b = VTABLE_B.with(|t| t.borrow().iter().find(|(k, _)| k == key).map(|(_, b)| b.clone()));
+    let accept = match b {
+        None | Some(VBehave::Accept) => true,
+        Some(VBehave::Reject) => false,
+        Some(VBehave::AcceptIfEq(v)) => &v == value,
+        Some(VBehave::AcceptIfPresent) => !value.is_null(),
+    };
+    if accept {
+        Ok(())
+    } else {
+        Err(PasetoClaimError::CustomValidation(format!("vh2:{}", key)))
+    }
+}
+static HVB: fn(&str, &Value) -> Result<(), PasetoClaimError> = harness_validator_b;
+fn hv_for(v: &VSpec) -> &'static fn(&str, &Value) -> Result<(), PasetoClaimError> {
+    if v.second {
+        &HVB
+    } else {
+        &HV
+    }
+}
+
 pub fn vlog_take() -> Vec<(String, Value)> {
     VLOG.with(|l| std::mem::take(&mut *l.borrow_mut()))
 }
@@ -646,14 +677,16 @@ pub fn session_logs_take() -> Vec<Vec<(String, Value)>> {
     SESSION_LOGS.with(|l| std::mem::take(&mut *l.borrow_mut()))
 }
 fn vtable_add(v: &VSpec) {
-    VTABLE.with(|t| {
+    let table = if v.second { &VTABLE_B } else { &VTABLE };
+    table.with(|t| {
         let mut t = t.borrow_mut();
         t.retain(|(k, _)| k != v.claim.key());
         t.push((v.claim.key().to_string(), v.behave.clone()));
     });
 }
 fn vtable_set(v: &[VSpec]) {
-    VTABLE.with(|t| *t.borrow_mut() = v.iter().map(|s| (s.claim.key().to_string(), s.behave.clone())).collect());
+    VTABLE.with(|t| *t.borrow_mut() = v.iter().filter(|s| !s.second).map(|s| (s.claim.key().to_string(), s.behave.clone())).collect());
+    VTABLE_B.with(|t| *t.borrow_mut() = v.iter().filter(|s| s.second).map(|s| (s.claim.key().to_string(), s.behave.clone())).collect());
 }
 
 // ------------------------------------------------------------------------------------------
@@ -925,10 +958,10 @@ macro_rules! impl_proto {
                     for v in &cfg.validators {
                         match v.reg {
                             VReg::ValidateClaim => {
-                                check_claim_on!(p, &v.claim, validate_claim, &HV)?;
+                                check_claim_on!(p, &v.claim, validate_claim, hv_for(v))?;
                             }
                             VReg::ExtendOnly => {
-                                ext.insert(v.claim.key().to_string(), Box::new(HV));
+                                ext.insert(v.claim.key().to_string(), Box::new(*hv_for(v)));
                             }
                         }
                     }
@@ -987,7 +1020,7 @@ macro_rules! impl_proto {
                     }
                     } else {
                     for v in &cfg.validators {
-                        check_claim_on!(p, &v.claim, validate_claim, &HV)?;
+                        check_claim_on!(p, &v.claim, validate_claim, hv_for(v))?;
                     }
                     }
                 }
